@@ -174,14 +174,14 @@ Section NamesInv.
     { inversion H; subst. apply post_names_refl; auto. }
     destruct rts as [|r0 rts']; [discriminate|].
     remember (r0 :: rts') as rts eqn:Erts.
-    set (b := (top (get_task (sstore st) r0) ++ "_shuffle")%string) in *.
+    set (b := shuffle_base inv fixed (top (get_task (sstore st) r0))) in *.
     rewrite namer_new_spec in H. inversion H; subst st' ids; clear H.
     pose proof (push_stage st b
       (reshuffle_tasks inv fixed (sstore st) (render b (namer_get (snamer st) b)) p rts
                        (seq (List.length (sstore st)) (List.length rts)))
       ((b, S (namer_get (snamer st) b)) :: snamer st) (senv st) (smemo st) []) as PS.
     rewrite app_nil_r in PS. apply PS; auto.
-    - apply clean_shuffle.
+    - apply clean_shuffle_base.
     - apply nm_le_refl.
     - apply inv_names_nodup; auto.
     - unfold reshuffle_tasks. apply Forall_forall. intros t Ht.
@@ -292,5 +292,93 @@ Section NamesInv.
     - apply names_result.
     - intros. eapply names_slices; eauto.
     - intros j q s1 s2 l _ Hp _. eapply post_names_irrel; [| |exact Hp]; reflexivity.
+  Qed.
+
+  (* ================= operation names carry the invocation index ================= *)
+  Definition post_pref (i : nat) (p : part) (st st' : cstate) (ids : list nat) : Prop :=
+    exists a, sstore st' = sstore st ++ a /\ Forall (fun t => prefixed inv (top t)) a.
+
+  Hypothesis Hnamed : cfg_named_by_inv fixed = true.
+
+  Lemma prefixed_op_base slices i r : slices = i :: r -> prefixed inv (op_base g inv slices).
+  Proof.
+    intros ->. unfold op_base, prefixed, inv_prefix. simpl rev. rewrite map_app. simpl map.
+    destruct (map (fun j => nop (get_node g j)) (rev r) ++ [nop (get_node g i)]) as [|x l] eqn:E.
+    - destruct (map _ (rev r)); discriminate.
+    - exists (String.concat "_" (x :: l)). simpl. now rewrite !append_assoc.
+  Qed.
+
+  Lemma pref_deps : forall (rec : nat -> part -> cstate -> cres) i n comb ck,
+    (forall j q s1 s2 l, j < i -> True -> rec j q s1 = COk s2 l -> post_pref j q s1 s2 l) ->
+    forall l st st2 ds, (forall d, In d l -> dtarget d < i) ->
+      compile_deps rec n comb ck l st = DOk st2 ds ->
+      exists a, sstore st2 = sstore st ++ a /\ Forall (fun t => prefixed inv (top t)) a.
+  Proof.
+    intros rec i n comb ck Hrec. induction l as [|d l IH]; intros st st2 ds Hlt H; simpl in H.
+    - inversion H; subst. exists []. now rewrite app_nil_r.
+    - assert (Hd : dtarget d < i) by (apply Hlt; simpl; auto).
+      assert (Hl : forall d', In d' l -> dtarget d' < i) by (intros; apply Hlt; simpl; auto).
+      assert (Join : forall q st1 ids l0, rec (dtarget d) q st = COk st1 ids ->
+                compile_deps rec n comb ck l st1 = DOk st2 l0 ->
+                exists a, sstore st2 = sstore st ++ a /\ Forall (fun t => prefixed inv (top t)) a).
+      { intros q st1 ids l0 R D. destruct (Hrec _ _ _ _ _ Hd I R) as (a1 & E1 & F1).
+        destruct (IH _ _ _ Hl D) as (a2 & E2 & F2). exists (a1 ++ a2).
+        split; [rewrite E2, E1; now rewrite app_assoc | apply Forall_app; auto]. }
+      destruct (dshuffle d).
+      + destruct (rec (dtarget d) (mkPart n (dcustom d) comb ck) st) as [st1 ids|] eqn:R; [|discriminate].
+        assert (H' : match compile_deps rec n comb ck l st1 with
+                     | DOk st2 l0 => DOk st2 (DShuf (hd 0 ids) (dexpand d) ck :: l0)
+                     | DFail e => DFail e end = DOk st2 ds).
+        { destruct ids; [destruct n; [exact H|discriminate]|exact H]. }
+        destruct (compile_deps rec n comb ck l st1) as [st2' l0|] eqn:D; [|discriminate].
+        inversion H'; subst st2'. eapply Join; eauto.
+      + destruct (rec (dtarget d) part0 st) as [st1 ids|] eqn:R; [|discriminate].
+        destruct (negb (List.length ids =? n)); [discriminate|].
+        destruct (compile_deps rec n comb ck l st1) as [st2' l0|] eqn:D; [|discriminate].
+        inversion H; subst st2'. eapply Join; eauto.
+  Qed.
+
+  Theorem compile_prefixed : forall fuel i p st st' ids,
+    i < fuel -> compile g inv mc fixed fuel i p st = COk st' ids ->
+    exists a, sstore st' = sstore st ++ a /\ Forall (fun t => prefixed inv (top t)) a.
+  Proof.
+    intros fuel i p st st' ids Hi H.
+    refine (compile_ind g inv mc fixed (fun _ _ _ => True) post_pref _ _ _ _ fuel i p st st' ids Hi I H).
+    - intros. exists []. now rewrite app_nil_r.
+    - (* a Result *)
+      intros j q s rts s' l _ R C. unfold compile_result in C.
+      destruct (existsb _ rts); [discriminate|].
+      destruct (negb (is_shuffle q)).
+      { inversion C; subst. exists []. now rewrite app_nil_r. }
+      destruct rts as [|r0 rts']; [discriminate|].
+      rewrite namer_new_spec in C. inversion C; subst s' l; clear C. simpl.
+      eexists. split; [reflexivity|].
+      unfold reshuffle_tasks. apply Forall_forall. intros t Ht.
+      apply in_map_iff in Ht as (x & <- & _). simpl.
+      apply prefixed_render. unfold shuffle_base. rewrite Hnamed. apply prefixed_shuffle_base_inv.
+    - (* a pipeline *)
+      intros rec j q s s' l Hrec _ R C. unfold compile_slices in C.
+      destruct (pipeline (Datatypes.S (List.length g)) g j) as [slices|] eqn:P; [|discriminate].
+      pose proof (pipeline_spec g Hwf _ _ _ P) as PS. rewrite R in PS.
+      destruct PS as (r & Hsl & _ & Hle & _).
+      rewrite namer_new_spec in C.
+      match type of C with context [compile_deps rec ?n ?c ?k ?dl ?s1] =>
+        destruct (compile_deps rec n c k dl s1) as [st2 ds|] eqn:D; [|discriminate];
+        assert (Hdl : forall d, In d dl -> dtarget d < j) end.
+      { intros d Hd. destruct (Hwf (last slices j)) as [Hw _]. destruct (Hw d Hd) as [Hlt _].
+        assert (last slices j <= j). { apply Hle. rewrite Hsl. apply last_in. }
+        lia. }
+      destruct (pref_deps rec j _ _ _ Hrec _ _ _ _ Hdl D) as (a2 & E2 & F2). simpl in E2.
+      destruct (cache_loop _ (senv st2) _) as [env' ts'] eqn:CL.
+      inversion C; subst s' l; clear C. simpl.
+      pose proof (cache_loop_spec _ _ _ _ _ CL) as Hdrop.
+      exists (a2 ++ ts'). split; [rewrite E2; now rewrite app_assoc|].
+      apply Forall_app. split; auto.
+      apply Forall_forall. intros t' Ht'. destruct (In_nth_error _ _ Ht') as [k Hk].
+      destruct (Forall2_nth_error _ _ _ Hdrop k t' Hk) as (t & Ht & Hd).
+      apply stage_tasks_nth in Ht as [_ ->]. apply dropped_fields in Hd. simpl in Hd.
+      destruct Hd as (_ & A & _). rewrite A.
+      apply prefixed_render. eapply prefixed_op_base; eauto.
+    - intros j q s s' l _ Hp _. exact Hp.
   Qed.
 End NamesInv.
